@@ -572,7 +572,7 @@ PROPERTIES = {
     "C09": runprop("rand", ("res", "v"), ("text", "dis"), 1200, 50000, nontrivial=lambda obs, case: True,
                    extra_streams=[{"stream": "run", "profile": "rand", "quick": 400, "thorough": 8000, "special": special_rerun}],
                    rule="run/rand: programs rendering dice, random and random_range in lines, conditions and assignments over several seeds; the implementation must reproduce the pure model's random values bit for bit; plus the same cases re-executed in reverse order in a second process must give identical observations",
-                   leanchecker=["Ysgo.Props.C09"]),
+                   leanchecker=["Ysgo.Props.C09", "Ysgo.Props.C09Facts"]),
     "C10": runprop("cmds", ("res", "log"), ("text",), 1200, 50000,
                    extra_streams=[{"stream": "wait", "profile": "duration", "quick": 5000, "thorough": 300000, "nontrivial": lambda obs, case: obs[0] not in ("0", "9223372036854775807")},
                                   {"stream": "wait", "profile": "shape", "quick": 70, "thorough": 1500, "nontrivial": lambda obs, case: True, "timeout": 1800},
@@ -580,7 +580,7 @@ PROPERTIES = {
                                   {"stream": "wait", "profile": "abandon", "quick": 40, "thorough": 800, "nontrivial": lambda obs, case: True, "timeout": 1800}],
                    nontrivial=lambda obs, case: any(obs_kind(o) == "WAIT" for o in obs) and any(o.startswith("DONE") for o in obs),
                    rule="run/cmds: scripts with commands that complete on return, fail on return, or stay pending until the harness completes them with success or an error after any number of polls; compared: result class and the handler invocation log; non-trivial = a waiting answer and a later completion",
-                   leanchecker=["Ysgo.Props.C10"]),
+                   leanchecker=["Ysgo.Props.C10", "Ysgo.Props.C10Facts"]),
     "C11": runprop("visits", ("res", "vis"), ("text",), 1200, 50000,
                    nontrivial=lambda obs, case: len({parse_run(o)["vis"] for o in obs}) >= 3,
                    rule="run/visits: jump graphs with self-loops, cycles, jumps out of nested bodies and by expression, nodes marked tracking never/always, visit counters rendered in lines, snapshots and restores; compared: elements and the visit-count map after every operation; non-trivial = at least 3 distinct counter maps",
